@@ -22,6 +22,25 @@ theorem typeOf_alt {x : Ms} {ty : Ty} (h : typeOf (.alt x) = some ty) :
       · simp at hc
     · simp at h
 
+theorem typeOf_swap {x : Ms} {ty : Ty} (h : typeOf (.swap x) = some ty) :
+    ∃ tx, typeOf x = some tx ∧ tx.corr.base = .B ∧ (tx.corr.input = .one ∨ tx.corr.input = .oneNonZero)
+      ∧ ty.corr.base = .W ∧ ty.corr.unit = tx.corr.unit := by
+  simp only [typeOf] at h
+  cases hx : typeOf x with
+  | none => simp [hx] at h
+  | some tx =>
+    refine ⟨tx, rfl, ?_⟩
+    simp only [hx, Option.bind_some, Ty.castSwap, Ty.lift1, Corr.castSwap] at h
+    split at h
+    · rename_i c hc
+      split at hc
+      · split at hc
+        · simp at hc h; subst hc; subst h; simp_all
+        · simp at hc h; subst hc; subst h; simp_all
+        · simp at hc
+      · simp at hc
+    · simp at h
+
 theorem typeOf_check {x : Ms} {ty : Ty} (h : typeOf (.check x) = some ty) :
     ∃ tx, typeOf x = some tx ∧ tx.corr.base = .K ∧ ty.corr.base = .B ∧ ty.corr.unit = true := by
   simp only [typeOf] at h
@@ -272,6 +291,58 @@ theorem typeOf_hash {k : HashKind} {n : Nat} {ty : Ty} (h : typeOf (.hash k n) =
     ty.corr.base = .B ∧ ty.corr.unit = true := by
   simp [typeOf] at h; subst h; exact ⟨rfl, rfl⟩
 theorem typeOf_multi {k : Nat} {ks : List Key} {ty : Ty} (h : typeOf (.multi k ks) = some ty) :
+    ty.corr.base = .B ∧ ty.corr.unit = true := by
+  simp [typeOf] at h; subst h; exact ⟨rfl, rfl⟩
+
+theorem typesOf_cons {x : Ms} {xs : MsList} {ts : List Ty} (h : typesOf (.cons x xs) = some ts) :
+    ∃ t ts', typeOf x = some t ∧ typesOf xs = some ts' ∧ ts = t :: ts' := by
+  simp only [typesOf] at h
+  cases hx : typeOf x with
+  | none => simp [hx] at h
+  | some t =>
+    cases hxs : typesOf xs with
+    | none => simp [hx, hxs] at h
+    | some ts' => simp [hx, hxs] at h; exact ⟨t, ts', rfl, rfl, h.symm⟩
+
+theorem typesOf_nil {ts : List Ty} (h : typesOf .nil = some ts) : ts = [] := by
+  simp [typesOf] at h; exact h
+
+theorem threshLoop_cons {i acc : Nat} {s : Corr} {rest : List Corr} {n : Nat}
+    (h : Corr.threshLoop i acc (s :: rest) = some n) :
+    (i = 0 → s.base = .B) ∧ (i ≠ 0 → s.base = .W) ∧ s.unit = true
+      ∧ Corr.threshLoop (i + 1) (acc + Corr.numArgs s.input) rest = some n := by
+  simp only [Corr.threshLoop] at h
+  split at h
+  · simp at h
+  · rename_i h1
+    split at h
+    · simp at h
+    · rename_i h2
+      split at h
+      · simp at h
+      · rename_i h3
+        split at h
+        · simp at h
+        · refine ⟨fun hi => ?_, fun hi => ?_, by simpa using h3, h⟩
+          · exact Classical.byContradiction fun hb => h1 ⟨hi, hb⟩
+          · exact Classical.byContradiction fun hb => h2 ⟨hi, hb⟩
+
+theorem typeOf_thresh {k : Nat} {xs : MsList} {ty : Ty} (h : typeOf (.thresh k xs) = some ty) :
+    ∃ ts n, typesOf xs = some ts ∧ Corr.threshLoop 0 0 (ts.map (·.corr)) = some n
+      ∧ ty.corr.base = .B ∧ ty.corr.unit = true := by
+  simp only [typeOf] at h
+  cases hx : typesOf xs with
+  | none => simp [hx] at h
+  | some ts =>
+    simp only [hx, Option.bind_some, Ty.threshold, Corr.threshold] at h
+    cases hl : Corr.threshLoop 0 0 (ts.map (·.corr)) with
+    | none => simp [hl] at h
+    | some n =>
+      simp [hl] at h
+      subst h
+      exact ⟨ts, n, rfl, hl, rfl, rfl⟩
+
+theorem typeOf_multiA {k : Nat} {ks : List Key} {ty : Ty} (h : typeOf (.multiA k ks) = some ty) :
     ty.corr.base = .B ∧ ty.corr.unit = true := by
   simp [typeOf] at h; subst h; exact ⟨rfl, rfl⟩
 
